@@ -22,8 +22,8 @@ import z3
 from pyvc import loops, models
 from pyvc.engine import Explorer, Frame, Interp, PyExc, VCoro
 from pyvc.runner import Check, Unit, run_units
-from pyvc.values import (NONE, Unsupported, V, VBool, VBytes, VConst, VDict, VInt, VList, VObj,
-                         VStr, VTuple, wrap)
+from pyvc.values import (NONE, Unsupported, V, VBool, VBytes, VConst, VDict, VFloat, VInt, VList,
+                         VObj, VStr, VTuple, wrap)
 
 
 class Stub:
@@ -383,8 +383,98 @@ def async_run_harness(I: Interp) -> None:
             I.prove("A-returns-OK", r.t == 0)
 
 
+def complete_run_meta_harness(with_path: bool):
+    """`DBHandler.complete_run_meta` against the contract entry_point relies on: one UPDATE of
+    the run's row that stores end time, time zone and the exit code, then a commit - with and
+    without an artifacts directory."""
+    def harness(I: Interp) -> None:
+        import gallia.command  # noqa: F401
+        from gallia.db import handler as H
+        log: list[tuple[str, Any]] = []
+
+        def execute(I2: Interp, r: V, a: list[V], k: dict[str, V]) -> V:
+            log.append(("execute", a))
+            return coro(lambda: VObj(Stub, {}, lazy=True, tag="cursor"))
+        I.ex.stubs[("conn", "execute")] = execute
+        I.ex.stubs[("conn", "commit")] = lambda I2, r, a, k: (
+            log.append(("commit", None)), coro(lambda: NONE))[1]
+        ts, tzn = VFloat(z3.Real("end_ts")), VStr()
+        I.ex.stubs[("time", "timestamp")] = lambda I2, r, a, k: ts
+        I.ex.stubs[("time", "tzname")] = lambda I2, r, a, k: tzn
+        meta = I.fresh_int("meta_id", 1, None, inp=True)
+        code = I.fresh_int("exit_code", 0, 255, inp=True)
+        h = VObj(H.DBHandler, {"connection": VObj(Stub, {}, lazy=True, tag="conn"), "meta": meta})
+        path: V = VObj(Stub, {}, lazy=True, tag="path") if with_path else NONE
+        I.ex.stubs[("path", "__str__")] = lambda I2, r, a, k: VStr("/artifacts/run-1")
+        try:
+            I.await_v(I.call_v(I.getattr_v(h, "complete_run_meta"),
+                               [VObj(Stub, {}, lazy=True, tag="time"), code, path], {}))
+        except PyExc as e:
+            I.fail("M-complete_run_meta-does-not-raise", e.exc.cls.__name__)
+            return
+        ex = [a for k, a in log if k == "execute"]
+        I.prove("M-exactly-one-statement-is-executed", z3.BoolVal(len(ex) == 1))
+        I.prove("M-committed-after-the-update",
+                z3.BoolVal(bool(log) and log[-1][0] == "commit" and len(log) >= 2))
+        if len(ex) != 1:
+            return
+        q = ex[0][0]
+        qs = q.s if isinstance(q, VStr) and q.s is not None else ""
+        I.prove("M-statement-updates-run_meta-end-time-zone-and-exit-code", z3.BoolVal(
+            qs.startswith("UPDATE run_meta SET") and all(
+                c in qs for c in ("end_time = ?", "end_timezone = ?", "exit_code = ?"))
+            and qs.rstrip().endswith("WHERE id = ?")))
+        params = ex[0][1].items if len(ex[0]) > 1 and isinstance(ex[0][1], VTuple) else []
+        cols = [c.strip().split(" ")[0] for c in qs.split("SET", 1)[-1].split("WHERE")[0]
+                .split(",")] if "SET" in qs else []
+        I.prove("M-one-parameter-per-placeholder", z3.BoolVal(len(params) == qs.count("?")))
+        if len(params) != qs.count("?") or not params:
+            return
+        byname = dict(zip(cols + ["id"], params))
+        I.prove("M-exit-code-parameter-is-the-exit-code",
+                z3.BoolVal(byname.get("exit_code") is code))
+        I.prove("M-end-time-parameter-is-the-end-time", z3.BoolVal(byname.get("end_time") is ts))
+        I.prove("M-row-is-the-run's-own", z3.BoolVal(byname.get("id") is meta))
+    return harness
+
+
+def init_harness(I: Interp) -> None:
+    """Ownership: the per-run resources of a command object are instance state created by
+    `BaseCommand.__init__` - two command objects in one process (a script that runs another
+    command) never share the list of open log handlers entry_point closes at its end."""
+    B = base_module()
+
+    class Cmd(B.BaseCommand):  # type: ignore[misc]
+        async def run(self) -> int:
+            return 0
+    models.MODELS[B.camel_to_snake] = lambda I2, a, k: VStr("cmd")
+    models.CLASS_MODELS[B.RunMeta] = lambda I2, cls, a, k: VObj(Stub, dict(k), lazy=True,
+                                                                tag="run_meta")
+    models.MODELS[B.json.loads] = lambda I2, a, k: VDict([])
+    I.ex.stubs[("config", "model_dump_json")] = lambda I2, r, a, k: VStr("{}")
+    models.MODELS[B.datetime.now] = lambda I2, a, k: VObj(Stub, {}, lazy=True, tag="time")
+    I.ex.stubs[("time", "isoformat")] = lambda I2, r, a, k: VStr()
+    a_, b_ = VObj(Cmd, {}), VObj(Cmd, {})
+    cfg = VObj(Stub, {}, lazy=True, tag="config")
+    try:
+        I.call_py(B.BaseCommand.__init__, [a_, cfg], {}, owner=B.BaseCommand)
+        I.call_py(B.BaseCommand.__init__, [b_, cfg], {}, owner=B.BaseCommand)
+    except PyExc as e:
+        I.fail("N-BaseCommand.__init__-does-not-raise", e.exc.cls.__name__)
+        return
+    la, lb = a_.fields.get("log_file_handlers"), b_.fields.get("log_file_handlers")
+    I.prove("N-log_file_handlers-is-instance-state-created-by-__init__",
+            z3.BoolVal(isinstance(la, VList) and la.items == []))
+    I.prove("N-two-commands-do-not-share-their-log-handler-list",
+            z3.BoolVal(la is not None and la is not lb))
+    for attr in ("_lock_file_fd", "db_handler", "artifacts_dir"):
+        I.prove(f"N-{attr}-starts-unset-per-instance", z3.BoolVal(a_.fields.get(attr) is NONE))
+
+
 def build_units(tier: str) -> list[Unit]:
-    units = []
+    units = [Unit("db/complete_run_meta/with-artifacts-dir", complete_run_meta_harness(True)),
+             Unit("db/complete_run_meta/without-artifacts-dir", complete_run_meta_harness(False)),
+             Unit("ownership/BaseCommand.__init__", init_harness)]
     for a in (False, True):
         for d in (False, True):
             for l_ in (False, True):
@@ -451,8 +541,67 @@ def native_run(outcome: str, hooks_fail: bool, db: bool, scanner: bool = False) 
     return obs
 
 
+def native_db_complete(with_path: bool) -> tuple[bool, str]:
+    import asyncio
+    import logging
+    import shutil
+    import sqlite3
+    import tempfile
+    logging.disable(logging.CRITICAL)
+    import gallia.command  # noqa: F401
+    from gallia.command.config import GalliaBaseModel
+    from gallia.db.handler import DBHandler
+    tmp = tempfile.mkdtemp(prefix="c15_")
+    dbp = Path(tmp) / "x.sqlite"
+
+    async def go() -> None:
+        h = DBHandler(dbp)
+        await h.connect()
+        await h.insert_run_meta(script="x", config=GalliaBaseModel(),
+                                start_time=datetime.now().astimezone(),
+                                path=Path(tmp) if with_path else None)
+        await h.complete_run_meta(datetime.now().astimezone(), 3,
+                                  Path(tmp) if with_path else None)
+        await h.disconnect()
+    err = None
+    try:
+        asyncio.run(go())
+    except Exception as e:  # noqa: BLE001
+        err = f"{type(e).__name__}: {e}"
+    rows: list = []
+    try:
+        con = sqlite3.connect(dbp)
+        rows = con.execute("select exit_code, end_time, end_timezone from run_meta").fetchall()
+        con.close()
+    except Exception as e:  # noqa: BLE001
+        err = (err or "") + f" / {e}"
+    shutil.rmtree(tmp, ignore_errors=True)
+    bad = err is not None or len(rows) != 1 or rows[0][0] != 3 or rows[0][1] is None
+    return bad, (f"run_meta row after complete_run_meta(exit_code=3, path="
+                 f"{'dir' if with_path else None}): {rows} (error: {err})")
+
+
+def native_ownership() -> tuple[bool, str]:
+    B = base_module()
+
+    class Cmd(B.AsyncScript):  # type: ignore[misc]
+        CONFIG_TYPE = B.AsyncScriptConfig
+
+        async def main(self) -> None:
+            pass
+    a, b = Cmd(B.AsyncScriptConfig()), Cmd(B.AsyncScriptConfig())
+    shared = a.log_file_handlers is b.log_file_handlers
+    own = "log_file_handlers" in vars(a)
+    return (shared or not own), (f"two command objects: log_file_handlers shared={shared}, "
+                                 f"instance attribute={own}")
+
+
 def native_replay(unit: str, obligation: str, model: dict) -> tuple[bool, str]:
     import shutil
+    if unit.startswith("db/complete_run_meta"):
+        return native_db_complete("with-" in unit)
+    if unit.startswith("ownership/"):
+        return native_ownership()
     if obligation.startswith("K-run_hook-never-raises") or "entry_point-never-raises" in obligation:
         obs = native_run("return", True, False)
         shutil.rmtree(obs["tmp"], ignore_errors=True)
